@@ -159,7 +159,6 @@ def dictionaries():
         {"A": None},
         {"A": False, "B": 0, "C": ""},
         {"A": [], "B": {}, "C": [0]},
-        {"C": "\\{lit\\}"},
         {"A": 1, "B": 1, "C": 1, "D": 1, "E": 1},
     ]
     return copy.deepcopy(base)
